@@ -549,4 +549,3 @@ func vSameWire(a, b interface{}) bool {
 	bb, e2 := proto.Marshal(b.(proto.Message))
 	return e1 == nil && e2 == nil && bytes.Equal(ba, bb)
 }
-
